@@ -79,6 +79,7 @@ impl Scn {
 
 #[derive(Default, Clone)]
 pub struct Seen {
+    pub servers_built_with_bind: u64,
     pub connections: u64,
     pub served: u64,
     pub unserved_closed_at_shutdown: u64,
@@ -245,6 +246,13 @@ pub fn run_scenario(scn: &Scn, seen: &mut Seen) -> Outcome {
         shutdown_timeout: 1,
         backlog: 256,
     };
+    // a third of the scenarios let the builder create the sockets (`bind` / `bind_uds`, with a stale socket file in the
+    // way) instead of handing it bound ones; derived from the seed without touching the scenario's random stream
+    let via_bind = vh_core::fnv_str(&format!("bind{}", scn.seed)) % 3 == 0;
+    if via_bind {
+        engine::BIND_NEXT.store(true, std::sync::atomic::Ordering::SeqCst);
+        seen.servers_built_with_bind += 1;
+    }
     let mut run = match engine::start(&cfg, |_| {}) {
         Ok(r) => r,
         Err(e) => return Outcome::Inconclusive(e),
